@@ -514,14 +514,41 @@ def _staging_justified(ctx, f, fg, node, atoms):
 def _criteria_guard(ctx, f0, fg0, node, atoms):
     prog = ctx.prog
     for f, a in atoms:
-        if a[0] != "truthy" or "next" not in a[1]:
+        if a[0] != "truthy":
             continue
-        # the guard is a read of RECORD.next[<transition>]; find its assignment in the same loop
-        for s in ast.walk(f.node):
-            if isinstance(s, ast.Assign) and len(s.targets) == 1 and isinstance(
-                    s.targets[0], ast.Subscript) and unparse(s.targets[0]) == a[1] and \
-                    (f is not f0 or textually_before(s, node)):
+        cands = []
+        if a[1].isidentifier():
+            # a local that holds the transition's verdict
+            for d in _defs(f, a[1]):
+                cands.append(d)
+        elif "next" in a[1]:
+            for s in ast.walk(f.node):
+                if isinstance(s, ast.Assign) and len(s.targets) == 1 and isinstance(
+                        s.targets[0], ast.Subscript) and unparse(s.targets[0]) == a[1] and \
+                        (f is not f0 or textually_before(s, node)):
+                    cands.append(s)
+        for s in cands:
+            if True:
                 v = s.value
+                hops = 0
+                while isinstance(v, ast.Name) and hops < 3:
+                    ds = _defs(f, v.id)
+                    if len(ds) != 1:
+                        break
+                    v = ds[0].value
+                    hops += 1
+                if isinstance(v, ast.Subscript) and "next" in unparse(v):
+                    # a read of the recorded decision: find what was recorded
+                    for s2 in ast.walk(f.node):
+                        if isinstance(s2, ast.Assign) and len(s2.targets) == 1 and unparse(
+                                s2.targets[0]) == unparse(v):
+                            v = s2.value
+                            while isinstance(v, ast.Name) and len(_defs(f, v.id)) == 1:
+                                v = _defs(f, v.id)[0].value
+                            break
+                if a[1].isidentifier() and not (isinstance(v, ast.Call) and isinstance(
+                        v.func, ast.Name) and v.func.id == "all"):
+                    continue
                 if not (isinstance(v, ast.Call) and isinstance(v.func, ast.Name)
                         and v.func.id == "all" and v.args):
                     return False, "under a transition flag that is not all(<criteria>)"
